@@ -633,6 +633,29 @@ fn run_case_inner(line: &str) -> Option<String> {
                 }
             }
         }
+        ["bigpageeq", w, h] => {
+            // two pages of this (giant) size over separate zeroed buffers: equal, equal hashes; after one pixel is set
+            // in one of them: different
+            let (w, h): (u32, u32) = (w.parse().ok()?, h.parse().ok()?);
+            let r = guarded(|| {
+                use std::hash::{Hash, Hasher};
+                let bpc = (h as u128 + 7) / 8;
+                let total = ((4 + w as u128 * bpc + 15) / 16 * 16) as usize;
+                let p = Page::from_bytes(w, h, vec![0u8; total]).expect("exact length");
+                let mut q = Page::from_bytes(w, h, vec![0u8; total]).expect("exact length");
+                let eq1 = p == q;
+                let hash = |x: &Page<'_>| {
+                    let mut hs = std::collections::hash_map::DefaultHasher::new();
+                    x.hash(&mut hs);
+                    hs.finish()
+                };
+                let heq = hash(&p) == hash(&q);
+                q.set_pixel(w - 1, h - 1, true);
+                let eq2 = p == q;
+                format!("eq={} hash-eq={} after-set-eq={}", eq1 as u8, heq as u8, eq2 as u8)
+            });
+            r.unwrap_or_else(|| "PANIC".into())
+        }
         ["bigpage", w, h, x, y] => {
             // a page too large to print (or to hold in the model as a list): set one pixel and report where the
             // page changed among the true position and its likely aliases (positions reduced modulo 2^32 / 2^16,
@@ -766,6 +789,21 @@ fn run_case_inner(line: &str) -> Option<String> {
         ["io", "write", a, ty, d, "|", evs @ ..] => {
             let f = mk_frame(parse_u16(a)?, parse_u8(ty)?, parse_hex(d)?)?;
             crate::iomock::io_write(&f, crate::iomock::parse_wevs(evs)?)
+        }
+        ["serialmte", wms, rms, rest @ ..] => {
+            // timed multi-exchange run on a port that is a little slow ALL the time: every write call blocks wms ms,
+            // every read call that starts a line rms ms
+            let g: Vec<&[&str]> = rest.split(|t| *t == "|").collect();
+            if g.len() != 3 {
+                return None;
+            }
+            let msgs: Vec<Message<'static>> = g[0].iter().map(|t| parse_msg(t)).collect::<Option<_>>()?;
+            crate::iomock::PORT_LATENCY.with(|c| c.set((wms.parse().unwrap_or(0), rms.parse().unwrap_or(0))));
+            crate::iomock::PORT_LATENCY_EVERY.with(|c| c.set(true));
+            let r = crate::iomock::serial_multi_case(true, &msgs, crate::iomock::parse_revs(g[1])?, crate::iomock::parse_wevs(g[2])?);
+            crate::iomock::PORT_LATENCY_EVERY.with(|c| c.set(false));
+            crate::iomock::PORT_LATENCY.with(|c| c.set((0, 0)));
+            r?
         }
         ["serialmts", wms, rms, rest @ ..] => {
             // timed multi-exchange run on a slow port (first write call blocks wms ms, first read call rms ms)
